@@ -1,19 +1,30 @@
 (* C14 — Maintenance is never stranded: no lost wake-up after a write.
    Model: Drain.v — the drain-status protocol with the default executor at the granularity of single
    atomic accesses (loads, stores, CAS, TryLock/Lock/Unlock, one buffer pop), every executor
-   submission being a new task thread.  The theorems are EXHAUSTIVE over all schedules for a bounded
-   initial thread population (stated in each theorem); they are proved by computing the closed set of
-   reachable configurations inside Coq (vm_compute) and a soundness lemma for that computation.
-   The exploration runs on a positive-keyed map (DrainFast.v; a key collision makes the check fail, so
-   the key need not be injective).  Sanity of the theorem: with the writer's retry after a failed
-   CAS processing-to-idle -> processing-to-required removed from the model, check_fast 2 0 and
-   check_fast 1 1 evaluate to false.  Larger populations (3 writers; 2 writers + a CleanUp caller)
-   exhaust memory in this representation; the unbounded statement is not proved.
+   submission being a new task thread.
+
+   Proved here for ANY number of writers and explicit CleanUp callers, every task they spawn, and
+   EVERY schedule (theories/DrainInv.v): C14_no_stranding_any_population — when nothing can move any
+   more, every thread has finished, the write buffer is empty, the drain status is idle and the
+   eviction lock is free.  The proof is an inductive invariant over counts of threads per program
+   counter (C14_invariant): the lock is held by exactly one owner (a spawner owns it until it or its
+   task takes the hand-off token), the status is "processing" while an owner is between its status
+   store and its release, a "processing" status has a thread that will finish it, a "required"
+   status has a thread that will act on it (a writer that gives up at TryLock does so only while
+   the owner is one of them), and every buffered event is covered: by a pending drain, by a
+   "required" / "processing-to-required" status, or by its producer still being in
+   scheduleAfterWrite.  Every step of every thread preserves it (24 program counters, linear
+   arithmetic), so no bound on the population is involved.
+   The earlier EXHAUSTIVE theorems for small populations (closed reachable sets computed by
+   vm_compute, DrainFast.v) are kept as an independent cross-check of the same statement; with the
+   writer's retry after a failed CAS removed from the model they evaluate to false.
    The model is tied to the code by the "sched" engine, which executes the real cache in macro steps
    (hook point to hook point) and compares every macro step with DrainMacro.macro_step;
-   C14_macro_steps_are_runs shows those macro steps are runs of the small-step model. *)
+   C14_macro_steps_are_runs shows those macro steps are runs of the small-step model.
+   Not proved: that every schedule is finite (fair termination); the statement is about the
+   configurations in which nothing can move. *)
 From stdpp Require Import gmap.
-From Otter Require Import Drain DrainProofs DrainBounded DrainMacro.
+From Otter Require Import Drain DrainProofs DrainBounded DrainMacro DrainInv.
 
 (* soundness of the exploration: a closed set containing the initial configuration contains every
    configuration reachable under every schedule *)
@@ -22,6 +33,19 @@ Theorem C14_exploration_sound : forall V s0,
   forall s, reachable s0 s -> terminal s = true -> drained s = true.
 Proof. exact terminals_drained. Qed.
 Print Assumptions C14_exploration_sound.
+
+(* any number of writers (w) and explicit CleanUp callers (c), every schedule *)
+Theorem C14_no_stranding_any_population : forall w c sched,
+  let s := run_sched (dinit w c) sched in terminal s = true -> drained s = true.
+Proof. exact drained_any_population. Qed.
+Print Assumptions C14_no_stranding_any_population.
+
+(* the invariant behind it holds in every reachable configuration: in particular the eviction lock
+   has exactly one owner when held and none when free, and a status of "processing" or "required"
+   always has a thread that will act on it *)
+Theorem C14_invariant : forall w c s, reachable (dinit w c) s -> CInv s.
+Proof. exact CInv_reachable. Qed.
+Print Assumptions C14_invariant.
 
 (* the units in which the correspondence engine executes the code are sequences of small steps of one
    thread: every configuration it visits is reachable in the small-step model *)
